@@ -47,13 +47,13 @@ def _pos(i):
 class It:
     """iterator value: a position in a sequence (index) or in a map (key, or END)"""
     END = ('<end>',)
-    __slots__ = ('c', 'k')
+    __slots__ = ('c', 'k', 'rev')
 
-    def __init__(self, c, k):
-        self.c, self.k = c, k
+    def __init__(self, c, k, rev=False):
+        self.c, self.k, self.rev = c, k, rev
 
     def same(self, o):
-        return isinstance(o, It) and self.c is o.c and self.k == o.k
+        return isinstance(o, It) and self.c is o.c and self.k == o.k and self.rev == o.rev
 
     def __repr__(self):
         return 'it@%s' % (self.k,)
@@ -613,12 +613,14 @@ class Interp:
                 return int(eq if name == 'operator==' else not eq)
         if name in ('operator++', 'operator--') and isinstance(objv, It) and 'obj' in st:
             d_ = 1 if name == 'operator++' else -1
+            if objv.rev:
+                d_ = -d_
             if isinstance(objv.c, dict):
                 ks = [k_ for k_ in objv.c if k_ != '__map__']
                 pos = ks.index(objv.k) + d_ if objv.k in ks else len(ks)
                 nv = It(objv.c, ks[pos] if 0 <= pos < len(ks) else It.END)
             else:
-                nv = It(objv.c, objv.k + d_)
+                nv = It(objv.c, objv.k + d_, objv.rev)
             self.write(f, st, self.lv(f, st['obj'], env), nv, env)
             return objv if args else nv         # the postfix form carries a dummy int argument
         callee = st.get('callee') or ''
@@ -1065,6 +1067,8 @@ class Interp:
                     return loc[1]
                 if loc[0] == 'global' and isinstance(self.globals.get(loc[1]), P):
                     return self.globals[loc[1]]
+                if loc[0] == 'field' and isinstance(self.this.get(self.canon(self.this, loc[1])), dict):
+                    return self.ref(self.this[self.canon(self.this, loc[1])])
                 if loc[0] == 'dict' and isinstance(loc[1].get(loc[2]), dict):
                     name = 'rec@%d' % id(loc[1][loc[2]])
                     self.mem[name] = loc[1][loc[2]]
@@ -1441,7 +1445,19 @@ def _emplace(it, f, st, a):
     return it.ref(pair)
 
 
-VECTOR_HOOKS.update({'emplace': _emplace, 'find': _find, 'begin': _begin, 'end': _end, 'cbegin': _begin, 'cend': _end, 'operator->': _deref, 'operator*': _deref, 'find_if': _find_if, 'erase': _erase,
+def _rbegin(it, f, st, a):
+    v = _vec(it, f, st)
+    if isinstance(v, dict):
+        raise AnalysisBroken('%s: reverse iteration over a map is not modelled (%s)' % (f.short, f.loc(st['i'])))
+    return It(v, len(v) - 1, True)
+
+
+def _rend(it, f, st, a):
+    v = _vec(it, f, st)
+    return It(v, -1, True)
+
+
+VECTOR_HOOKS.update({'rbegin': _rbegin, 'rend': _rend, 'crbegin': _rbegin, 'crend': _rend, 'emplace': _emplace, 'find': _find, 'begin': _begin, 'end': _end, 'cbegin': _begin, 'cend': _end, 'operator->': _deref, 'operator*': _deref, 'find_if': _find_if, 'erase': _erase,
                      'count': lambda it, f, st, a: int((it.cstr(a[0]) if it.cstr(a[0]) is not None else a[0]) in _vec(it, f, st)),
                      'back': lambda it, f, st, a: _elem(it, f, st, _vec(it, f, st), len(_vec(it, f, st)) - 1, 'back', False),
                      'front': lambda it, f, st, a: _elem(it, f, st, _vec(it, f, st), 0, 'front', False),
